@@ -94,6 +94,20 @@ def isDoneOf (a : Nat) : Out → Bool
   | .done a' _ _ _ => a' == a
   | _ => false
 
+/-- aio `a` completed successfully -/
+def isDoneOk (a : Nat) : Out → Bool
+  | .done a' rv _ _ => a' == a && rv == 0
+  | _ => false
+
+/-- FIFO admission of parked senders.  `pending` = the sends submitted in EARLIER steps that
+    are still waiting, in submission order; `outs` = the outputs of this step.  A parked send
+    may be admitted (complete with 0: its message goes to a pipe or into the buffer) only if
+    every send parked before it completes in this step too (admitted, or cancelled / timed
+    out / failed: those leave the order).  The send submitted in this very step is not
+    parked, so it is not constrained (it may find room that a buffer resize left). -/
+def parkedOvertaken (pending : List (Nat × WMsg)) (outs : List Out) : Bool :=
+  (pending.dropWhile (fun x => outs.any (isDoneOf x.1))).any (fun x => outs.any (isDoneOk x.1))
+
 /-- bookkeeping caused by the event itself -/
 def pushPre (j : PushJ) (ev : Ev) (outs : List Out) : PushJ × Option (Nat × WMsg) :=
   match ev with
@@ -138,6 +152,9 @@ def pushStep (j : PushJ) (ev : Ev) (outs : List Out) : PushJ :=
   match ev with
   | .recv .. => j                   -- a receive on a PUSH socket (NNG_ENOTSUP) is not a C06 matter
   | _ =>
+  let j := if parkedOvertaken j.pending outs then
+      j.fail "a parked sender was overtaken: a send submitted earlier is still waiting"
+    else j
   let (j, nb) := pushPre j ev outs
   let j := pushNewPipes outs j
   -- completions first (a message must be accepted before it is wired), then the rest
@@ -156,6 +173,7 @@ structure PullJ where
   waiting : List Nat := []               -- receive aios pending
   delivered : List WMsg := []
   closedPipes : List Nat := []
+  live : List Nat := []                  -- pipes connected and not closed
   closed : Bool := false
   err : Option String := none
 deriving Repr
@@ -220,6 +238,28 @@ def pullPost (nb : Option Nat) (outs : List Out) (j : PullJ) : PullJ :=
     j.fail "a receiver is kept waiting although a message has arrived"
   else j
 
+/-- the pipes connected in this step -/
+def newPipes (outs : List Out) : List Nat :=
+  outs.filterMap fun o => match o with
+    | .pipe p => if p ≥ 0 then some p.toNat else none
+    | _ => none
+
+/-- connected pipes: those that appeared (`pipe p`) and were not closed (`pclosed p`) -/
+def trackLive (outs : List Out) (j : PullJ) : PullJ :=
+  { j with live := (j.live ++ newPipes outs).filter fun p => !(outs.contains (.pclosed p)) }
+
+/-- pipe `p` is being read, or back-pressured as pull.c documents it: the protocol holds ONE
+    message of `p` that the application has not taken yet -/
+def pullServed (j : PullJ) (p : Nat) : Bool :=
+  j.armed.contains p || j.held.any (·.1 == p)
+
+/-- receive liveness (the library is quiescent): every connected pipe is served -/
+def pullLive (j : PullJ) : PullJ :=
+  if j.closed then j
+  else match j.live.find? (fun p => !pullServed j p) with
+    | some p => j.fail s!"pipe {p} is not read although the protocol holds no undelivered message of it"
+    | none => j
+
 def pullStep (j : PullJ) (ev : Ev) (outs : List Out) : PullJ :=
   if j.err.isSome then j else
   if notExecuted outs then j else
@@ -229,7 +269,7 @@ def pullStep (j : PullJ) (ev : Ev) (outs : List Out) : PullJ :=
   let (j, nb) := pullPre j ev outs
   let j := (outs.filter isDone).foldl (pullOut nb) j
   let j := (outs.filter (fun o => !isDone o)).foldl (pullOut nb) j
-  pullPost nb outs j
+  pullLive (trackLive outs (pullPost nb outs j))
 
 def pullJudge (tr : List (Ev × List Out)) : Option String :=
   (tr.foldl (fun j x => pullStep j x.1 x.2) ({} : PullJ)).err
